@@ -8,29 +8,30 @@ for l in open(os.path.join(ROOT, "properties.jsonl")):
 
 # property -> (status text, technique)
 TEXT = {
+ "C16": "Coq theorems: holds_C16 for every control function from every state satisfying the invariant (parked primary untouched while on the alternate screen, blank alternate screen in the current pen on every entry incl. mode lists, 1049 saves first, exact restore when the size is unchanged); resized excursion: C10's resize_preserves on the parked buffer",
+ "C12": "Coq theorems: with unlimited scrollback any two chunkings of a string end in states with equal parser, screen, cursor, modes and lines() (primary and alternate screen, RIS allowed); for every limit: no control function reads dirty flags, trim flags or rows above the view (execute commutes with cutting scrollback prefixes). Known finding KF-C12-1 (per-character feed() on the alternate screen) classified separately",
+ "C14": "Coq theorem: for every size, limit L and RIS-free session of feed_str calls from the initial state ending on the primary screen, drained lines ++ final lines() = lines() of the unlimited run (cell for cell, in order); nothing lost at a report (C14_flush)",
+ "C15": "Coq theorems: every control function marks every row whose cells it changes (ghost invariant DInv preserved by execute / resize), hence every report returned by feed_str / resize is sound (holds_C15)",
+ "C20": "Coq theorem over the regenerated parser tables: every concatenation of OSC/DCS/SOS/PM/APC strings (7/8-bit introducers, ST / ESC \\\\ / BEL), unimplemented CSI / ESC sequences and unassigned C0/C1 controls (grammar inert_spec, outside the known-finding class kf_c20) emits no function from any parser in ground state and ends in ground state; KF-C20-1 proved real (witness CSI > ! p); exhaustive sweep validates the tables",
  "C01": "Coq theorems: the reflow loop and Buffer::resize never panic / always terminate for every buffer, size and cursor (all of nat); PARTIAL for the remaining operations, which are covered by the step-wise correspondence with panic verdicts, a model-free stress run with a watchdog and the executable statement on the implementation",
  "C02": "Coq theorems: every row produced by reflow / Buffer::resize has the new width, the buffer keeps >= rows lines, the last line is unwrapped, the cursor row stays inside; PARTIAL for the remaining operations (executable geometry statement holds_C02 evaluated on every implementation post-state)",
- "C03": "Coq theorems over the Parser::feed table regenerated from the source on every run (all 14 states x all of N), translator validated by an exhaustive sweep of the implementation",
- "C04": "Coq theorem at buffer level (cell write changes exactly that cell); PARTIAL: the full print/wrap/insert refinement spec_print is an executable statement evaluated on every implementation step",
- "C05": "Coq theorem: for every cursor command (tab searches aside) the model function equals the specification spec_cursor on every state satisfying the scalar invariant - only cursor fields change, no cell changes",
- "C06": "Coq theorems: Buffer::scroll_up (all three code paths) and scroll_down equal the list-level specification incl. what enters the scrollback; PARTIAL at terminal level (spec_scroll evaluated on every implementation step)",
- "C07": "Coq theorem: Buffer::erase in all seven modes equals the closed-form extent; insert/delete/clear likewise (library BufRow); PARTIAL at terminal level (spec_edit evaluated on every implementation step)",
- "C08": "Coq theorems: SGR decoder = grammar of the property for every parameter array; each op acts on the public pen observations as specified (arbitrary attribute byte); pen = left fold; SGR changes nothing but the pen",
- "C10": "Coq theorems: resize to the same size is the identity; Buffer::resize is total and re-establishes the invariant; PARTIAL: preservation of logical lines / cursor character (resize_preserves) is an executable statement evaluated on every implementation resize",
+ "C03": "Coq theorems over the Parser::feed table regenerated from the source on every run: table = Williams diagram + 4 deviations for all 14 states x all of N; one parser step = table transition + action and never panics; ESC Fe = C1; memorylessness (psim) over arbitrary input; digit accumulation mod 2^16. Translator validated by an exhaustive sweep of the implementation (14 x 1,112,064 x backgrounds)",
+ "C04": "Coq theorems: from every state satisfying the invariant, Print and REP yield exactly the specified screen (spec_print / spec_rep: deferred wrap with region scroll, insert mode, last-column rule, charset table), nothing else changes, invariant re-established; the executable statement holds_C04 is a theorem of the model and is evaluated on every implementation step",
+ "C05": "Coq theorems: for EVERY cursor command of the property (incl. tab searches) and every state satisfying the invariant the model function equals spec_cursor - only cursor fields change (margins/origin for DECSTBM/DECOM), no cell changes; holds_C05 is a theorem of the model and is evaluated on every implementation step",
+ "C06": "Coq theorems: LF/IND/NEL/RI on the margins, SU, SD, IL, DL equal the view-level specification spec_scroll (range shift, blanks in the pen, rows outside unchanged, exactly the pushed rows appended to the scrollback in order) from every state satisfying the invariant; Buffer::scroll_up/down characterised for all three code paths",
+ "C07": "Coq theorems: ED/EL/ECH/ICH/DCH/DECALN equal the closed-form specification spec_edit from every state satisfying the invariant; holds_C07 is a theorem of the model and is evaluated on every implementation step",
+ "C08": "Coq theorems: SGR decoder = grammar of the property for every parameter array; each op acts on the public pen observations as specified (arbitrary attribute byte); pen = left fold; SGR changes nothing but the pen; no other function changes the pen (holds_C08 for every step); cells carry the pen by C04/C06/C07",
+ "C10": "Coq theorems: reflow preserves the list of logical lines exactly; Buffer::resize keeps the cursor in the same logical line and on the same character; the full executable statement resize_preserves / holds_C10 holds for every Resize step from every state satisfying the invariant (all sizes, cursors incl. wrap-pending)",
  "C13": "Coq theorem: the end-of-call trim leaves at most L + L/10 scrollback lines (exactly L after a trim), soft <= hard for every limit; PARTIAL: the whole-run bound holds_C13 is evaluated after every implementation call",
- "C17": "Coq theorems: the four save spellings store exactly (visible column, row, pen, origin, auto-wrap) and change nothing else; the restore spellings re-establish exactly those and clear wrap-pending; per-screen bookkeeping (holds_C17) evaluated on every implementation step",
- "C18": "Coq theorems: default stops, set/unset, n-th next/previous stop, contract and expand (incl. the first new column when a multiple of 8), and fresh terminals keep exactly the default stops across any resize",
- "C19": "Coq theorem: the regenerated hard_reset assignment list yields syntactically the terminal built by the regenerated Terminal::new (every field); full-state equality with a fresh Vt (holds_C19) evaluated on every implementation RIS",
+ "C17": "Coq theorems: holds_C17 (per-screen saved-context bookkeeping for all save/restore spellings, DECSTR, RIS, every other function) and holds_C17_resize for every step from every state satisfying the invariant",
+ "C18": "Coq theorems: default stops, set/unset, n-th next/previous stop, contract/expand (incl. the first new column when a multiple of 8), fresh terminals keep the defaults across any resize; holds_C18 / holds_C18_resize for every step from every state satisfying the invariant",
+ "C19": "Coq theorems: ESC c fed to ANY state satisfying the invariant (any parser state, alternate screen, any modes) yields syntactically the state of a fresh Vt of the same size and limit - parser, terminal, buffers, dirty flags - hence identical behaviour on all future input; the regenerated hard_reset list covers every field (incl. cursor-key mode, fix D3)",
 }
 TECH = "machine-checked proof in Coq (model regenerated/hand-written, tied by translator + step-wise correspondence and executable statements run on the implementation)"
 NOT_YET = {
  "C09": "theorem not yet proved (the executable statement holds_C09 and the correspondence already run in ./check C09); claimed once a theorem is Qed",
  "C11": "theorem not yet proved (dump/restore oracle holds_C11 with the known-finding classifiers already runs in ./check C11); claimed once a theorem is Qed",
- "C12": "theorem not yet proved (chunking oracle holds_C12 already runs in ./check C12); claimed once a theorem is Qed",
- "C14": "theorem not yet proved (stream oracle holds_C14 already runs in ./check C14); claimed once a theorem is Qed",
- "C15": "theorem not yet proved (holds_C15 already runs in ./check C15); claimed once a theorem is Qed",
  "C16": "theorem not yet proved (holds_C16 already runs in ./check C16); claimed once a theorem is Qed",
- "C20": "theorem not yet proved (inert-sequence oracle + exhaustive sweep already run in ./check C20); claimed once a theorem is Qed",
 }
 claimed = sorted(p for p in TEXT if os.path.exists(os.path.join(ROOT, "coq", "Properties", p + ".v")))
 m = {
@@ -60,6 +61,6 @@ for p in claimed:
     })
 for p in sorted(TITLES):
     if p not in claimed:
-        m["not_applicable"].append({"property_id": p, "reason": NOT_YET.get(p, "not yet claimed")})
+        m["not_applicable"].append({"property_id": p, "reason": NOT_YET.get(p, "theorem not yet proved (the executable statement and the correspondence already run in ./check %s); claimed once a theorem is Qed" % p)})
 json.dump(m, open(os.path.join(ROOT, "MANIFEST.json"), "w"), indent=1)
 print("claimed:", claimed)
